@@ -6,7 +6,7 @@ from checks.resource_common import PRIMS, RT, build_with_repo
 
 H = os.path.join(VERIF, 'harness', 'h_pool.cpp')
 SRCS = ['src/threading/ThreadPool.cpp', 'src/threading/Thread.cpp', 'src/threading/Runnable.cpp']
-OPN = {0: '-', 1: 'start(task)', 2: 'clear()', 3: 'stop()', 4: 'wait for all submitted tasks', 5: 'update()'}
+OPN = {0: '-', 1: 'start(task)', 2: 'clear()', 3: 'stop()', 4: 'wait for all submitted tasks', 5: 'update()', 6: 'getters (active count, count, isRunning, max, expiry)'}
 # memory-safety instrumentation is reduced for these units (measured: pointer checks triple the solver time): array bounds and division only;
 # lifetime errors of tasks are visible through the harness' ghost state (canary, entered/exited/destroyed counters)
 POOL_FLAGS = ['--unwinding-assertions', '--drop-unused-functions', '--object-bits', '12', '--no-malloc-may-fail', '--no-standard-checks', '--bounds-check', '--div-by-zero-check']
@@ -16,17 +16,56 @@ class PoolCheck(Check):
     def build(self, q):
         return build_with_repo(self, q)
 
+    def classify(self, queries, finding_of=None, required_reach=None):
+        Check.classify(self, queries, finding_of, required_reach)
+        group_rule(self, queries)
 
-def pool_query(name, ops, maxthreads, K, racy=True, timeout=3000, liveness=True, prefix_only=False, harness_defs=(), expect_reach=('owner finished', 'all threads finished')):
+    def native_replay(self, path, **kw):
+        # ThreadPool deletes PooledThread objects through Thread* (no virtual destructor): ASan's sized-delete check fires on the unchanged
+        # library in every run that reaches stop(); it is outside the given properties (DESIGN 8.4) and would mask the replayed schedule
+        os.environ['VF_ASAN_EXTRA'] = ':new_delete_type_mismatch=0'
+        return Check.native_replay(self, path, **kw)
+
+
+def group_rule(self, queries):
+        # schedule-prefix cubes of one query: the reachability witnesses must be reached in at least one cube (infeasible prefixes reach nothing)
+        groups = {}
+        for q in queries:
+            if getattr(q, 'group', None):
+                groups.setdefault(q.group, []).append(q)
+        for g, qs in groups.items():
+            want = set(qs[0].group_reach)
+            got = set(w for q in qs if q.result for w in q.result.reached)
+            if want - got and all(q.result and q.result.status in ('OK', 'FAIL') for q in qs):
+                self.broken.append('%s: vacuous: witness(es) unreachable in every schedule-prefix cube: %s' % (g, sorted(want - got)))
+
+
+def cubed(q_args, q_kw, cube_bits, nthr_choices=2):
+    """splits one pool query into schedule-prefix cubes: the first steps are the owner's (no other thread exists yet), the next `cube_bits` thread
+    choices are enumerated (2^bits cubes, run in parallel); the rest of the schedule stays symbolic. The union of the cubes is the original query."""
+    racy = q_kw.get('racy', True)
+    zeros = 4 if racy else 3          # owner steps before the first worker can run: [racy read of m_isRunning,] lock queue, lock pool, create+notify
+    reach = tuple(q_kw.pop('expect_reach', ('owner finished', 'all threads finished')))
+    out = []
+    for bits in itertools.product(range(nthr_choices), repeat=cube_bits):
+        q = pool_query(q_args[0] + '_c' + ''.join(str(b) for b in bits), *q_args[1:], expect_reach=(), prefix=[0] * zeros + list(bits), **q_kw)
+        q.group = q_args[0]
+        q.group_reach = list(reach)
+        q.mem_weight = 3
+        out.append(q)
+    return out
+
+
+def pool_query(name, ops, maxthreads, K, racy=True, timeout=3000, liveness=True, prefix_only=False, harness_defs=(), expect_reach=('owner finished', 'all threads finished'), prefix=None):
     ops = list(ops) + [0] * (4 - len(ops))
     ntask = max(1, sum(1 for o in ops if o == 1))
     nthr = 1 + min(maxthreads, ntask)
-    cdefs = ['VF_K=%d' % K, 'VF_NTHR=%d' % nthr, 'VF_PRESTART=1', 'VF_UNDEF_PTR_NULL=1'] + (['VF_LIVENESS=1'] if liveness else []) + (['VF_PREFIX_ONLY=1'] if prefix_only else [])
+    cdefs = ['VF_K=%d' % K, 'VF_NTHR=%d' % nthr, 'VF_PRESTART=1', 'VF_UNDEF_PTR_NULL=1'] + (['VF_LIVENESS=1'] if liveness else []) + (['VF_PREFIX_ONLY=1'] if prefix_only else []) + (['VF_PREFIX=' + ','.join(str(x) for x in prefix)] if prefix else [])
     q = Query(name, [H], ['OP%d=%d' % (i, o) for i, o in enumerate(ops)] + ['NTASK=%d' % ntask, 'MAXTHREADS=%d' % maxthreads, 'VF_LIST_CAP=3', 'VF_SPLIT_ENTRY=1'] + list(harness_defs), stl='model', rt=RT,
               cbmc_defines=cdefs, unwind=5, unwindset=['vf_run.0:%d' % (K + 2)], timeout=timeout, mem_gb=20,
               expect_reach=list(expect_reach), ll2c_kw={'co': True, 'yield_prims': PRIMS, 'racy_yield': racy, 'step_prune': True, 'static_new': True}, inline_all=True,
               desc={'owner_program': [OPN[o] for o in ops if o] + ['stop()'], 'max_threads': maxthreads, 'tasks': ntask, 'symbolic': 'the schedule (%d thread choices)' % K,
-                    'racy_fields_are_scheduling_points': racy, 'complete_runs': not prefix_only})
+                    'racy_fields_are_scheduling_points': racy, 'complete_runs': not prefix_only, 'schedule_prefix_cube': prefix})
     q.repo_srcs = SRCS
     q.native_repo_srcs = SRCS
     q.native_shim = True
